@@ -38,6 +38,7 @@ func findBuilder(p *an.Program) *ssa.Function {
 
 func runC03(c *an.Ctx) {
 	p := c.P
+	signingCoverage(c, "COVER", "server", "AllDeviceStats", "Signature")
 	builder := findBuilder(p)
 	if builder == nil {
 		c.Undecided("ANCHOR", nil, 0, "stats-builder", "weekly statistics builder not found", "anchor missing")
